@@ -98,10 +98,11 @@ def ValuesSpecClauseStatement : Prop :=
 /-- `{ s(f: ["x"]) }` with `f: String`: a list literal at a non-list position is accepted (known finding V8, whose
     replay on the real code is `{ a(x: [1]) }` with `x: Int`) -/
 def v8doc : Doc := ⟨[opV [] 1 [fld none "s" [⟨"f", .list [.str "x"]⟩]]]⟩
-/-- `{ s(l: [null]) }` with `l: [String!]`: a null item is accepted (second form of V8) -/
+/-- `{ s(l: [null]) }` with `l: [String!]`: a null item WAS accepted (second form of V8) until
+    proposed_fixes/C06-enter-list-value.patch; the items are now checked against the item type `String!` -/
 def v8doc2 : Doc := ⟨[opV [] 1 [fld none "s" [⟨"l", .list [.null]⟩]]]⟩
 
-/-- **the specification's clause is FALSE of the code** (known finding V8), witnesses `{ s(f: ["x"]) }` and `{ s(l: [null]) }` -/
+/-- **the specification's clause is FALSE of the code** (known finding V8), witness `{ s(f: ["x"]) }` -/
 theorem values_spec_clause_refuted : ¬ ValuesSpecClauseStatement := fun h =>
   absurd ((valuesCoercibleB_iff vSchema v8doc).mpr (h vSchema v8doc (by unfold Silent; decide +kernel)))
     (by decide +kernel)
@@ -110,7 +111,8 @@ theorem values_spec_clause_refuted : ¬ ValuesSpecClauseStatement := fun h =>
 example : Spec.valuesOfCorrectType vSchema Fixes.all v8doc ∧ ¬ Spec.valuesCoercible vSchema v8doc :=
   ⟨(rule_values_of_correct_type_iff vSchema Fixes.all _).mp (by unfold Silent; decide +kernel),
    fun h => absurd ((valuesCoercibleB_iff vSchema v8doc).mpr h) (by decide +kernel)⟩
-example : Silent vSchema Fixes.all .valuesOfCorrectType v8doc2 ∧ ¬ Spec.valuesCoercible vSchema v8doc2 :=
+/-- the second form of V8 is gone: the null item of a `[String!]` literal is reported -/
+example : ¬ Silent vSchema Fixes.all .valuesOfCorrectType v8doc2 ∧ ¬ Spec.valuesCoercible vSchema v8doc2 :=
   ⟨by unfold Silent; decide +kernel, fun h => absurd ((valuesCoercibleB_iff vSchema v8doc2).mpr h) (by decide +kernel)⟩
 
 end PyGql.Props.C06
